@@ -302,7 +302,26 @@ def json_short2(h):
     return ';'.join('%s(%s,%s,%s)' % (o['op'], o['p'], o['c'], o['k']) for o in h)[:160]
 
 
-CHECKS = {'C08': check_C08, 'C13': check_C13, 'C19': check_C19, 'C05': check_C05, 'C15': check_C15, 'C11': check_C11, 'C09': check_C09, 'C10': check_C10, 'C01': check_C01, 'C02': check_C02, 'C03': check_C03, 'C04': check_C04, 'C06': check_C06,
+def check_C17(ctx):
+    from harness import layer_metrics
+    res = runner.memo('metrics', ctx, lambda: layer_metrics.run(ctx))
+    viol = [{'clause': f['fails'][0][0], 'all_clauses': sorted({c[0] for c in f['fails']}), 'where': 'event %d' % f['fails'][0][1],
+             'payload': {'layer': 'metrics', 'g': f['g']}} for f in res['fails']]
+    cov = {'states': res['states'], 'transitions': res['transitions'], 'traces_validated_against_impl': res['n_traces'],
+           'samples': res['samples'], 'evaluations': res['n_evals'], 'distinct_nontrivial': res['nontrivial'],
+           'rule': 'descriptions with metric nodes of every direction x reference x declared-type combination under a permanent and '
+                   'a conditional node (family) plus seeded random graphs with 2-5 metric nodes; classification is recorded (or the '
+                   'construction error), and for up to 40 architectures per description evaluate() is called with evaluators returning '
+                   'complete, partial and NaN maps; non-trivial = description with at least one evaluated architecture',
+           'descriptions': res['n_graphs'], 'rejected_as_ambiguous_or_infeasible': res['rejected'], 'roles_total': res['roles'],
+           'exhaustive': False}
+    return {'level': 'model_checking', 'coverage': cov, 'violations': viol,
+            'assumptions': ['Metrics.tla MUST/MAY rules: "exists in every architecture" is semantic; between the nodes certainly permanent '
+                            'and those in every architecture the implementation may decide either way',
+                            'spec-as-oracle (rule level): TLC evaluates the rules, no state-machine content', 'TLC, CommunityModules Json']}
+
+
+CHECKS = {'C17': check_C17, 'C08': check_C08, 'C13': check_C13, 'C19': check_C19, 'C05': check_C05, 'C15': check_C15, 'C11': check_C11, 'C09': check_C09, 'C10': check_C10, 'C01': check_C01, 'C02': check_C02, 'C03': check_C03, 'C04': check_C04, 'C06': check_C06,
           'C07': check_C07, 'C14': check_C14, 'C16': check_C16}
 
 
@@ -312,6 +331,9 @@ def replay_payload(payload):
     if layer == 'graph':
         from harness import layer_graph
         return layer_graph.replay(payload['g'])
+    if layer == 'metrics':
+        from harness import layer_metrics
+        return layer_metrics.replay(payload['g'])
     if layer == 'persist':
         from harness import layer_persist
         return layer_persist.replay(payload)
